@@ -823,7 +823,9 @@ def kf_moved_docformat(w: Dict[str, Any]) -> bool:
     FUNCTION is parsed with the docformat of the module it is re-exported FROM ... TO (the new one) instead of the one it
     is written in.  Matches ONLY violations of the source kind `reexport.plaintext` for which html2stan was observed on
     level-0 text (the raw block of the plaintext docstring was read as a reST raw directive)."""
-    return (w.get("kind") == "reexport.plaintext" and w.get("invariant") in ("SkeletonEqual", "CanaryAppears")
+    # ... and only on the page that shows the function (the package page): the class page must stay clean
+    return (w.get("kind") == "reexport.plaintext" and w.get("invariant") == "SkeletonEqual"
+            and w.get("page") in ("index.html", "zpkg.html")
             and any(e[0] == "ParseXml" and e[1] == 0 for e in w.get("events", [])))
 
 
